@@ -96,3 +96,158 @@ Definition u1_block (l : list stmt) : bool := forallb u1_stmt l.
 (* the import events of a binding list: (line, import) of every binding made by an import statement *)
 Definition imp_events (l : list (name * bsrc)) : list (nat * import) :=
   flat_map (fun nb => match snd nb with BImp ln i => [(ln, i)] | BOther => [] end) l.
+
+(* ---------- stage 2: stage 1 + function and lambda scopes (no class, no comprehension) ----------
+   def with decorators, all parameter kinds, defaults, annotations, return annotation, nested defs, closures,
+   lambdas with defaults.  Still only the shapes a fully executed program runs completely. *)
+Fixpoint s2_expr (e : expr) : bool :=
+  match e with
+  | ELoad _ _ => true
+  | EOp es => (fix go (l : list expr) : bool := match l with [] => true | x :: r => s2_expr x && go r end) es
+  | EAttr e _ => s2_expr e
+  | ELambda ps ds body =>
+      forallb not_star ps &&
+      (fix go (l : list expr) : bool := match l with [] => true | x :: r => s2_expr x && go r end) ds &&
+      s2_expr body
+  | EComp _ _ => false
+  end.
+Definition s2_oexpr (o : option expr) : bool := match o with Some e => s2_expr e | None => true end.
+Definition s2_param (q : param) : bool := not_star (fst q) && s2_oexpr (snd q).
+Definition s2_oparam (o : option param) : bool := match o with Some q => s2_param q | None => true end.
+Definition s2_params (p : params) : bool :=
+  forallb s2_param (p_posonly p) && forallb s2_param (p_args p) && s2_oparam (p_vararg p) &&
+  forallb s2_param (p_kwonly p) && s2_oparam (p_kwarg p) &&
+  forallb s2_expr (p_defaults p) && forallb s2_oexpr (p_kw_defaults p).
+Definition s2_with_item (it : expr * option target) : bool :=
+  s2_expr (fst it) && match snd it with Some t => s1_target t | None => true end.
+
+Fixpoint s2_stmt (x : stmt) : bool :=
+  let blk := fix blk (l : list stmt) : bool := match l with [] => true | y :: r => s2_stmt y && blk r end in
+  match x with
+  | SExpr _ e => s2_expr e
+  | SAssign _ ts v => s2_expr v && forallb s1_target ts
+  | SAugAssign _ n attrs v => is_nil attrs && not_star n && s2_expr v
+  | SImport _ items => forallb s1_import_item items
+  | SImportFrom _ _ items => forallb s1_from_item items
+  | SDef _ nm decos ps ret body =>
+      not_star nm && forallb (fun d : nat * expr => s2_expr (snd d)) decos && s2_params ps && s2_oexpr ret && blk body
+  | SFor _ t it b o => s1_target t && s2_expr it && blk b && blk o
+  | SWhile _ t b o => s2_expr t && blk b && is_nil o
+  | SIf _ t b o => s2_expr t && blk b && is_nil o
+  | SWith _ items b => forallb s2_with_item items && blk b
+  | STry _ b hs o f => blk b && is_nil hs && blk o && blk f
+  | SPass _ => true
+  | SAllAssign _ _ | SClass _ _ _ _ _ _ | SDoc _ _ _ => false
+  end.
+Definition s2_block (l : list stmt) : bool := forallb s2_stmt l.
+
+(* ---------- stage 2 for the unused side (C02): stage-2 code whose import statements are top-level statements of the
+   module (what tidy-imports edits), every import binding a one-component key, no `from __future__ import` ---------- *)
+Fixpoint noimp_stmt (x : stmt) : bool :=
+  let blk := fix blk (l : list stmt) : bool := match l with [] => true | y :: r => noimp_stmt y && blk r end in
+  match x with
+  | SImport _ _ | SImportFrom _ _ _ => false
+  | SDef _ _ _ _ _ body => blk body
+  | SClass _ _ _ _ _ body => blk body
+  | SFor _ _ _ b o => blk b && blk o
+  | SWhile _ _ b o => blk b && blk o
+  | SIf _ _ b o => blk b && blk o
+  | SWith _ _ b => blk b
+  | STry _ b hs o f =>
+      blk b && (fix hl (l : list handler) : bool := match l with [] => true | Handler _ _ _ hb :: r => blk hb && hl r end) hs
+      && blk o && blk f
+  | _ => true
+  end.
+Definition u2_top (x : stmt) : bool :=
+  match x with
+  | SImport _ items => forallb u1_import_item items
+  | SImportFrom _ m items => not_future m && forallb s1_from_item items
+  | _ => s2_stmt x && noimp_stmt x
+  end.
+Definition u2_block (l : list stmt) : bool := forallb u2_top l.
+
+(* every name bound by an import is bound exactly once at module level, and is not a builtin / initial-namespace name:
+   the binding a function body sees when it runs is the one pyflyby sees when it scans the body (F34, F31 otherwise) *)
+Fixpoint count_name (x : name) (l : list name) : nat :=
+  match l with [] => 0 | y :: r => (if N.eqb x y then 1 else 0) + count_name x r end.
+Definition imports_once (bi : list name) (ns : list (list name)) (p : program) : bool :=
+  let bs := bsrcs_block false p in
+  forallb (fun xb : name * bsrc =>
+             match snd xb with
+             | BImp _ _ => Nat.eqb (count_name (fst xb) (map fst bs)) 1 && negb (mem (fst xb) (bi ++ concat ns))
+             | BOther => true
+             end) bs.
+
+(* ---------- stage 3: stage 2 + comprehensions ----------
+   A comprehension may stand wherever an expression may (also in a lambda body, a default, a decorator ...), nested to
+   any depth.  Inside a comprehension there is no lambda (c3_expr), and the iterable of its first generator contains no
+   nested scope at all (s1_expr): pyflyby visits that iterable inside the comprehension's scope although Python evaluates
+   it in the enclosing one - harmless for the reads made directly there (the scope is still empty), wrong for deferred
+   ones (F10-firstiter). *)
+Fixpoint c3_expr (e : expr) {struct e} : bool :=
+  match e with
+  | ELoad _ _ => true
+  | EOp es => (fix go (l : list expr) : bool := match l with [] => true | x :: r => c3_expr x && go r end) es
+  | EAttr e _ => c3_expr e
+  | ELambda _ _ _ => false
+  | EComp gens elts =>
+      (fix go (l : list gen) (first : bool) : bool :=
+         match l with [] => true | g :: r => c3_gen first g && go r false end) gens true &&
+      (fix go (l : list expr) : bool := match l with [] => true | x :: r => c3_expr x && go r end) elts
+  end
+with c3_gen (first : bool) (g : gen) {struct g} : bool :=
+  match g with
+  | Gen iter tgt ifs =>
+      (if first then s1_expr iter else c3_expr iter) && s1_target tgt &&
+      (fix go (l : list expr) : bool := match l with [] => true | x :: r => c3_expr x && go r end) ifs
+  end.
+
+Fixpoint s3_expr (e : expr) : bool :=
+  match e with
+  | ELoad _ _ => true
+  | EOp es => (fix go (l : list expr) : bool := match l with [] => true | x :: r => s3_expr x && go r end) es
+  | EAttr e _ => s3_expr e
+  | ELambda ps ds body =>
+      forallb not_star ps &&
+      (fix go (l : list expr) : bool := match l with [] => true | x :: r => s3_expr x && go r end) ds &&
+      s3_expr body
+  | EComp gens elts => c3_expr (EComp gens elts)
+  end.
+Definition s3_oexpr (o : option expr) : bool := match o with Some e => s3_expr e | None => true end.
+Definition s3_param (q : param) : bool := not_star (fst q) && s3_oexpr (snd q).
+Definition s3_oparam (o : option param) : bool := match o with Some q => s3_param q | None => true end.
+Definition s3_params (p : params) : bool :=
+  forallb s3_param (p_posonly p) && forallb s3_param (p_args p) && s3_oparam (p_vararg p) &&
+  forallb s3_param (p_kwonly p) && s3_oparam (p_kwarg p) &&
+  forallb s3_expr (p_defaults p) && forallb s3_oexpr (p_kw_defaults p).
+Definition s3_with_item (it : expr * option target) : bool :=
+  s3_expr (fst it) && match snd it with Some t => s1_target t | None => true end.
+
+Fixpoint s3_stmt (x : stmt) : bool :=
+  let blk := fix blk (l : list stmt) : bool := match l with [] => true | y :: r => s3_stmt y && blk r end in
+  match x with
+  | SExpr _ e => s3_expr e
+  | SAssign _ ts v => s3_expr v && forallb s1_target ts
+  | SAugAssign _ n attrs v => is_nil attrs && not_star n && s3_expr v
+  | SImport _ items => forallb s1_import_item items
+  | SImportFrom _ _ items => forallb s1_from_item items
+  | SDef _ nm decos ps ret body =>
+      not_star nm && forallb (fun d : nat * expr => s3_expr (snd d)) decos && s3_params ps && s3_oexpr ret && blk body
+  | SFor _ t it b o => s1_target t && s3_expr it && blk b && blk o
+  | SWhile _ t b o => s3_expr t && blk b && is_nil o
+  | SIf _ t b o => s3_expr t && blk b && is_nil o
+  | SWith _ items b => forallb s3_with_item items && blk b
+  | STry _ b hs o f => blk b && is_nil hs && blk o && blk f
+  | SPass _ => true
+  | SAllAssign _ _ | SClass _ _ _ _ _ _ | SDoc _ _ _ => false
+  end.
+Definition s3_block (l : list stmt) : bool := forallb s3_stmt l.
+
+(* stage 3 of the unused side: u2 with stage-3 statements (comprehensions) *)
+Definition u3_top (x : stmt) : bool :=
+  match x with
+  | SImport _ items => forallb u1_import_item items
+  | SImportFrom _ m items => not_future m && forallb s1_from_item items
+  | _ => s3_stmt x && noimp_stmt x
+  end.
+Definition u3_block (l : list stmt) : bool := forallb u3_top l.
